@@ -484,17 +484,29 @@ func runSeq(nExt int, withInt bool, seq []string) (func(), *stack.Config) {
 						if !a.external || a.st != agParked || s.busy || s.last == nil || s.last.Status != 200 || stack.EventType(s.last) != "INVOKE" {
 							continue
 						}
-						if _, blocked := issue(actor, actor+":next"); !blocked {
-							mism = append(mism, fmt.Sprintf("completion: %s's second next did not park", actor))
-							break
+						if len(seq)%2 == 1 {
+							// variant: the extension itself, busy with the event (Running), reports the exit error
+							if r, _ := issue(actor, actor+":exiterr:typed"); r == nil || r.Status != 202 {
+								st := -1
+								if r != nil {
+									st = r.Status
+								}
+								mism = append(mism, fmt.Sprintf("completion: %s's exit error while it processes the event got status %d, expected 202", actor, st))
+								break
+							}
+						} else {
+							if _, blocked := issue(actor, actor+":next"); !blocked {
+								mism = append(mism, fmt.Sprintf("completion: %s's second next did not park", actor))
+								break
+							}
+							x2 := &stack.Actor{W: w, P: w.K.Detached("/second-thread"), Name: "thread2:" + actor, Gen: 1, ExtID: extIDs[actor]}
+							if r := perform(x2, actor+":exiterr:typed"); r.Status != 202 {
+								mism = append(mism, fmt.Sprintf("completion: %s's exit error during its parked second next got status %d (%s), expected 202", actor, r.Status, etype(r.Body)))
+								break
+							}
+							sched.Go("client2", func() { defer stack.QuietExit(); w.ServerInvoke([]byte(`{"final":2}`)) })
+							sched.WaitQuiet()
 						}
-						x2 := &stack.Actor{W: w, P: w.K.Detached("/second-thread"), Name: "thread2:" + actor, Gen: 1, ExtID: extIDs[actor]}
-						if r := perform(x2, actor+":exiterr:typed"); r.Status != 202 {
-							mism = append(mism, fmt.Sprintf("completion: %s's exit error during its parked second next got status %d (%s), expected 202", actor, r.Status, etype(r.Body)))
-							break
-						}
-						sched.Go("client2", func() { defer stack.QuietExit(); w.ServerInvoke([]byte(`{"final":2}`)) })
-						sched.WaitQuiet()
 						x3 := &stack.Actor{W: w, P: w.K.Detached("/after-final"), Name: "thread3:" + actor, Gen: 1, ExtID: extIDs[actor]}
 						var r3 *stack.Call
 						done := false
@@ -505,9 +517,9 @@ func runSeq(nExt int, withInt bool, seq []string) (func(), *stack.Config) {
 						})
 						sched.WaitQuiet()
 						if !done {
-							mism = append(mism, fmt.Sprintf("completion: %s reported an exit error during its parked second next, yet after the release a further next parks (the final state was left)", actor))
+							mism = append(mism, fmt.Sprintf("completion: %s reported an exit error in the invoke phase, yet a further next parks (the report was not final)", actor))
 						} else if r3.Status != 403 {
-							mism = append(mism, fmt.Sprintf("completion: %s reported an exit error during its parked second next, yet a further next got status %d (%s) instead of 403", actor, r3.Status, etype(r3.Body)))
+							mism = append(mism, fmt.Sprintf("completion: %s reported an exit error in the invoke phase, yet a further next got status %d (%s) instead of 403", actor, r3.Status, etype(r3.Body)))
 						}
 						break // one extension is enough: the platform is failing now
 					}
